@@ -24,6 +24,8 @@ pub enum ChildFailure {
     Exit(i32),
     /// exceeded the wall-clock limit and was killed
     Timeout(u64),
+    /// unwound outside any guarded call; `in_repo` tells whether the panic site is in the code under test
+    Panic { location: String, message: String, in_repo: bool },
     Harness(String),
 }
 
@@ -33,6 +35,7 @@ impl ChildFailure {
             ChildFailure::Signal(s) => format!("process killed by signal {}", s),
             ChildFailure::Exit(c) => format!("process exited with status {}", c),
             ChildFailure::Timeout(t) => format!("no termination within the wall-clock limit of {} s", t),
+            ChildFailure::Panic { location, .. } => format!("unwind at {}", location),
             ChildFailure::Harness(e) => format!("harness: {}", e),
         }
     }
@@ -61,21 +64,19 @@ pub fn isolated(f: impl FnOnce() -> Vec<u8>, timeout_s: u64) -> Result<Vec<u8>, 
         if pid == 0 {
             // child
             libc::close(fds[0]);
+            crate::guard::install_hook();
             let r = std::panic::catch_unwind(std::panic::AssertUnwindSafe(f));
-            let code = match r {
-                Ok(bytes) => {
-                    let mut w = std::fs::File::from_raw_fd(fds[1]);
-                    let ok = w.write_all(&(bytes.len() as u64).to_le_bytes()).is_ok() && w.write_all(&bytes).is_ok() && w.flush().is_ok();
-                    drop(w);
-                    if ok {
-                        0
-                    } else {
-                        111
-                    }
+            let (tag, bytes): (u8, Vec<u8>) = match r {
+                Ok(bytes) => (0, bytes),
+                Err(_) => {
+                    let (loc, msg) = crate::guard::last_panic().unwrap_or_else(|| ("?".into(), "?".into()));
+                    (1, format!("{}\u{0}{}", loc, msg).into_bytes())
                 }
-                Err(_) => 112,
             };
-            libc::_exit(code);
+            let mut w = std::fs::File::from_raw_fd(fds[1]);
+            let ok = w.write_all(&((bytes.len() + 1) as u64).to_le_bytes()).is_ok() && w.write_all(&[tag]).is_ok() && w.write_all(&bytes).is_ok() && w.flush().is_ok();
+            drop(w);
+            libc::_exit(if ok { 0 } else { 111 });
         }
         // parent
         libc::close(fds[1]);
@@ -145,10 +146,18 @@ pub fn isolated(f: impl FnOnce() -> Vec<u8>, timeout_s: u64) -> Result<Vec<u8>, 
             return Err(ChildFailure::Harness("short result".into()));
         }
         let len = u64::from_le_bytes(buf[..8].try_into().unwrap()) as usize;
-        if buf.len() != 8 + len {
+        if buf.len() != 8 + len || len == 0 {
             return Err(ChildFailure::Harness("truncated result".into()));
         }
-        Ok(buf[8..].to_vec())
+        if buf[8] == 1 {
+            let text = String::from_utf8_lossy(&buf[9..]).to_string();
+            let mut it = text.splitn(2, '\u{0}');
+            let location = it.next().unwrap_or("?").to_string();
+            let message = it.next().unwrap_or("").to_string();
+            let in_repo = location.starts_with("falcon-rust/");
+            return Err(ChildFailure::Panic { location, message, in_repo });
+        }
+        Ok(buf[9..].to_vec())
     }
 }
 
@@ -222,6 +231,7 @@ pub fn fork_map(items: &[u64], w: usize, deadline_s: Option<f64>, f: &(dyn Fn(u6
                     Err(ChildFailure::Exit(c)) => (2, (c as i64).to_le_bytes().to_vec()),
                     Err(ChildFailure::Timeout(t)) => (3, (t as i64).to_le_bytes().to_vec()),
                     Err(ChildFailure::Harness(e)) => (4, e.into_bytes()),
+                    Err(ChildFailure::Panic { location, message, in_repo }) => (if in_repo { 5 } else { 6 }, format!("{}\u{0}{}", location, message).into_bytes()),
                 };
                 let _ = out.write_all(&item.to_le_bytes());
                 let _ = out.write_all(&[tag]);
@@ -270,6 +280,11 @@ pub fn fork_map(items: &[u64], w: usize, deadline_s: Option<f64>, f: &(dyn Fn(u6
                 1 => Err(ChildFailure::Signal(num() as i32)),
                 2 => Err(ChildFailure::Exit(num() as i32)),
                 3 => Err(ChildFailure::Timeout(num() as u64)),
+                5 | 6 => {
+                    let text = String::from_utf8_lossy(&payload).to_string();
+                    let mut it = text.splitn(2, '\u{0}');
+                    Err(ChildFailure::Panic { location: it.next().unwrap_or("?").to_string(), message: it.next().unwrap_or("").to_string(), in_repo: tag == 5 })
+                }
                 _ => Err(ChildFailure::Harness(String::from_utf8_lossy(&payload).to_string())),
             };
             res.insert(item, r);
